@@ -169,7 +169,7 @@ def run(ctx):
                   "an increase never bumps WeightRemoved and vice versa", f.where())
     homes = {s["fn"].name for s in M.sites}
     for variant, fns in (("WeightAdded", wadd), ("WeightRemoved", wrem)):
-        users = {g.name for n, g in F.fns.items() for b, t in g.calls() if t.get("rpath") in fns}
+        users = {outer_fn(F, g).name for n, g in F.fns.items() for b, t in g.calls() if t.get("rpath") in fns}
         helper_ok = set()
         for u in users - homes:
             cs = {g.name for n, g in F.fns.items() for b, t in g.calls() if t.get("rpath") == u}
@@ -269,14 +269,15 @@ def run(ctx):
     # several threads bump the access counters at the same time)
     n_w = 0
     for n, g in F.fns.items():
-        if (g.rec.get("self_ty") or "").split("<")[0] not in (SM.holder,) and "Counter" not in (g.rec.get("self_ty") or ""):
+        st_ = outer_fn(F, g).rec.get("self_ty") or ""
+        if st_.split("<")[0] not in (SM.holder,) and "Counter" not in st_:
             continue
         for b, t in g.calls():
             c = t["callee"]
             if not c.startswith("std::sync::atomic::Atomic::<u64>::"):
                 continue
             m = c.split("::")[-1]
-            if m == "load":
+            if m in ("load", "new", "default", "into_inner", "get_mut"):
                 continue
             n_w += 1
             okw = m == "fetch_add" or (m == "store" and g.op_origin(t["args"][1]) == ("const", 0, "u64"))
